@@ -97,4 +97,29 @@ let handle (toks : string list) : string =
   | ["m_wrapper2"; ar; ac; br; bc] ->
       let zi s = z_of_int (int_of_string s) in
       (match wrapper_ctor_SymShiftInvert (zi ar) (zi ac) (zi br) (zi bc) with Ok _ -> "ok" | Throw (e, _) -> "throw " ^ implode e)
+  | "m_compute" :: fam :: nev :: ncv :: niter0 :: sel :: maxit :: sorting :: "|" :: vals ->
+      (* replay world: num_converged / nev_adjusted return the recorded values in order *)
+      let zi s = z_of_int (int_of_string s) in
+      let w_replay (f : char list) (_ : z list) (st : z list) =
+        (match implode f with
+         | "num_converged" | "nev_adjusted" ->
+             (match st with x :: r -> Ok (r, x) | [] -> Throw (explode "trace", explode "exhausted"))
+         | _ -> Ok (st, Z0)) in
+      let orc = (fun _ _ -> false) in
+      let st0 = List.map zi vals in
+      let r = (if fam = "herm" then herm_compute w_replay orc (zi nev) (zi ncv) (zi niter0) (z_of_int 1) (zi sel) (zi maxit) (zi sorting) st0
+               else gen_compute w_replay orc (zi nev) (zi ncv) (zi niter0) (z_of_int 1) (zi sel) (zi maxit) (zi sorting) st0) in
+      (match r with
+       | Ok (((ret, niter), info), left) -> Printf.sprintf "ok %d %d %d %d" (int_of_z ret) (int_of_z niter) (int_of_z info) (List.length left)
+       | Throw (e, m) -> "throw " ^ implode e ^ " " ^ implode m)
+  | ["m_nevadj"; fam; nev; ncv; nconv; small; pairs] ->
+      let zi s = z_of_int (int_of_string s) in
+      let orc (txt : char list) (args : z list) : bool =
+        let t = implode txt in
+        let i = (match args with a :: _ -> int_of_z a | [] -> -1) in
+        if String.length t >= 3 && String.sub t 0 3 = "abs" then (i >= 0 && i < String.length small && small.[i] = '1')
+        else if String.length t >= 10 && String.sub t 0 10 = "is_complex" then (i - 1 >= 0 && i - 1 < String.length pairs && pairs.[i - 1] = '1')
+        else failwith ("unknown oracle " ^ t) in
+      let v = (if fam = "herm" then herm_nev_adjusted orc (zi nev) (zi ncv) (zi nconv) else gen_nev_adjusted orc (zi nev) (zi ncv) (zi nconv)) in
+      string_of_int (int_of_z v)
   | _ -> "ERROR unknown-case " ^ String.concat " " toks
